@@ -193,7 +193,7 @@ def classify(diags, linemap, genfile):
         for s in spans:
             for ln in range(s['line_start'], min(s.get('line_end', s['line_start']), s['line_start'] + 40) + 1):
                 md = linemap.get(ln) or linemap.get(str(ln))
-                if md and md.get('obligation') and md.get('kind') in ('spec', 'loop_inv'):
+                if md and md.get('obligation') and md.get('kind') not in ('body',):
                     if obligation and md['obligation'] not in obligation.split('+'):
                         obligation = obligation + '+' + md['obligation']
                         clause_props = sorted(set(clause_props or []) | set(md.get('clause_props') or []))
@@ -215,6 +215,13 @@ def classify(diags, linemap, genfile):
                     callee_md = linemap.get(s['line_start']) or linemap.get(str(s['line_start']))
             if outside or (callee_md and callee_md.get('kind') == 'prelude'):
                 kind = 'safety'
+        # precondition of a PROOF lemma (spec library / ghost items): a proof step, not a run-time safety condition
+        if 'precondition' in msg and kind == 'safety':
+            for s in spans:
+                if not s.get('is_primary'):
+                    cm = linemap.get(s['line_start']) or linemap.get(str(s['line_start']))
+                    if cm and not cm.get('fn') and cm.get('kind') in ('spec', 'module_items', 'inimpl', 'intrait'):
+                        kind = 'functional'
         failures.append({'fn': fn, 'module': module, 'kind': kind, 'msg': msg, 'line': line, 'text': text,
                          'span_lines': [(s['line_start'], s.get('line_end', s['line_start'])) for s in spans],
                          'obligation': obligation, 'clause_props': clause_props, 'clause_text': clause_text,
@@ -266,7 +273,7 @@ def narrow(genfile, failures, linemap, timeout=900):
                 tagged = None
                 for ln in range(a, b + 1):
                     md = linemap.get(ln) or linemap.get(str(ln))
-                    if md and md.get('obligation') and md.get('kind') in ('spec', 'loop_inv'):
+                    if md and md.get('obligation') and md.get('kind') not in ('body',):
                         tagged = md
                         break
                 if tagged is None:
